@@ -359,6 +359,9 @@ def run_job(job, w):
             w.violation("exception while unrolling shape %d: %s" % (shape["idx"], traceback.format_exc()[-600:]),
                         {"shape": shape, "clause": "exception", "detail": traceback.format_exc()[-3000:]})
             ok = False
+        import shutil
+        os.chdir("/")
+        shutil.rmtree(getattr(run, "root", "") or "/nonexistent", ignore_errors=True)   # keep scratch small
         w.evaluated()
         w.count("shapes_run")
         if ok:
